@@ -120,7 +120,6 @@ _noop('cylc.flow.data_store_mgr:DataStoreMgr.remove_pool_node')
 _noop('cylc.flow.workflow_db_mgr:WorkflowDatabaseManager.put_update_task_state')
 _noop('cylc.flow.workflow_db_mgr:WorkflowDatabaseManager.process_queued_ops')
 _noop('cylc.flow.task_queues.independent:IndepQueueManager.remove_task', sorts={'result': 'bool'})
-_noop('cylc.flow.task_state:TaskState.__call__', sorts={'result': 'bool'})
 contract(P + 'spawn_next_parentless',
          sorts={'self': 'TaskPool', 'itask': 'TaskProxy'},
          requires=['wf_entries(self)'],
